@@ -1,0 +1,17 @@
+//go:build verif
+
+package p2p
+
+import (
+	"net"
+
+	"github.com/tendermint/tendermint/p2p/conn"
+)
+
+// VerifUpgrade exposes MultiplexTransport.upgrade (secret-connection handshake, node-info
+// exchange and the identity / compatibility checks) so that a simulation harness can run it
+// over a simulated connection instead of a socket. Only compiled with the build tag
+// "verif"; adds no behaviour to the shipped binary.
+func (mt *MultiplexTransport) VerifUpgrade(c net.Conn, dialedAddr *NetAddress) (*conn.SecretConnection, NodeInfo, error) {
+	return mt.upgrade(c, dialedAddr)
+}
